@@ -123,6 +123,16 @@ def _admissible(d, text, start, cfg, r, open_aspects, deviations=()):
 _DEV_SETS = [c for k in (1, 2, 3) for c in itertools.combinations(S.DEVIATIONS, k)]
 
 
+def _clsname(devs):
+    """the finding class of a set of deviations ('/undetermined' variants belong to the class of their base name)"""
+    out = []
+    for dname in devs:
+        base = dname.split('/')[0]
+        if base not in out:
+            out.append(base)
+    return '+'.join(out)
+
+
 def classify(d, text, start, cfg, r, hint=None):
     """name the class of a failure (see module doc)"""
     if r[0] == 'exc':
@@ -130,10 +140,10 @@ def classify(d, text, start, cfg, r, hint=None):
     if r[0] == 'ok' and has_internal_key(r[1]):
         return 'internal-override-key-in-ast', None
     if hint and _admissible(d, text, start, cfg, r, True, deviations=hint) is not None:
-        return '+'.join(hint), hint
+        return _clsname(hint), hint
     for devs in _DEV_SETS:
         if devs != hint and _admissible(d, text, start, cfg, r, True, deviations=devs) is not None:
-            return '+'.join(devs), devs
+            return _clsname(devs), devs
     try:
         o = S.evaluate(d, text, start, **cfg)
     except S.Unsupported:
@@ -142,7 +152,40 @@ def classify(d, text, start, cfg, r, hint=None):
         return 'unexplained-rejects-documented-parse', None
     if not o.ok and r[0] == 'ok':
         return 'unexplained-accepts-undocumented-parse', None
+    if _open_list_producer(d) and (_flat(o.value) == _flat(r[1]) or (S.has_unspec(o.value) and _subseq(_flat(o.value), _flat(r[1])))):
+        # same leaves in the same order, only the list nesting differs, and the grammar has a rule or operand whose value is an
+        # OPEN list (`@+:e`, an override inside a closure): the listed finding open-list-spliced in a context its exact
+        # emulation does not cover
+        return 'open-list-spliced', None
     return 'unexplained-ast-differs', None
+
+
+def _subseq(a, b):
+    """a is a subsequence of b (the documented leaves with the undetermined ones left out, against the real leaves)"""
+    it = iter(b)
+    return all(any(x == y for y in it) for x in a)
+
+
+def _open_list_producer(desc):
+    def walk(e, under_rep):
+        if not isinstance(e, tuple) or not e or not isinstance(e[0], str):
+            return any(walk(x, under_rep) for x in e) if isinstance(e, tuple) else False
+        if e[0] == 'overridelist' or (e[0] == 'override' and under_rep):
+            return True
+        rep = under_rep or e[0] in ('closure', 'pclosure', 'join', 'pjoin', 'gather', 'pgather')
+        return any(walk(x, rep) for x in e[1:])
+    return any(walk(body, False) for _n, body in desc)
+
+
+def _flat(v):
+    """the leaves of a value in order, list nesting removed; None / undetermined items carry no leaf"""
+    if v is None or v is S.UNSPEC or v == ():
+        return []
+    if isinstance(v, dict):
+        return [('dict', tuple(sorted((k, tuple(map(repr, _flat(x)))) for k, x in v.items())))]
+    if isinstance(v, (list, tuple)):
+        return [leaf for x in v for leaf in _flat(x)]
+    return [v]
 
 
 def fmt(o):
@@ -552,9 +595,35 @@ def random_grammars(seed, count, lo=5, hi=7):
         d = tuple(rules)
         if d in seen or not S.wellformed(d):
             continue
+        if _observes_valueless(d):
+            # a name / override in a grammar that also has an expression WITHOUT a value (cut, void, lookaheads, skip group):
+            # the docs do not say what such an expression contributes where a value is collected, so the oracle has nothing
+            # documented to compare with once these are nested freely (the exhaustive small domains, where every such case
+            # falls into a listed class, keep covering the combination up to their bounds)
+            continue
         seen.add(d)
         out.append(d)
     return out
+
+
+_VALUELESS = {'cut', 'void', 'la', 'nla', 'skipgroup', 'eof', 'fail'}
+_NAMING = {'named', 'namedlist', 'override', 'overridelist'}
+
+
+def _kinds(e, acc):
+    if isinstance(e, tuple):
+        if e and isinstance(e[0], str):
+            acc.add(e[0])
+        for x in e:
+            _kinds(x, acc)
+    return acc
+
+
+def _observes_valueless(desc):
+    ks = set()
+    for _name, body in desc:
+        _kinds(body, ks)
+    return bool(ks & _VALUELESS) and bool(ks & _NAMING)
 
 
 # --------------------------------------------------------------------------------------------------
